@@ -10,7 +10,7 @@ CFG = """SPECIFICATION Spec
 CONSTANTS
   Keys = {"a", "b", "c", "d"}
   Labels = {0, 1}
-  Filters = {"null", "all", "lx1", "lx0", "fnx0", "nlx1", "nsa", "anx0", "anx1", "nsp1", "nsp2"}
+  Filters = {"null", "all", "lx1", "lx0", "fnx0", "nlx1", "nsa", "anx0", "anx1", "nsp1", "nsp2", "sel0", "selall"}
 INVARIANT Done
 CHECK_DEADLOCK FALSE
 """
@@ -22,19 +22,19 @@ CLASSES = {
                              "ready-before-sync", "publish-before-ready", "api-call-blocks"},
     "C04": KERNEL | ORDER | {"cache-not-current", "resume-version", "frame-mistranslated", "frame-ignored", "drop-not-full", "drop-unknown",
                              "watch-version-unknown", "ctl-events-differ", "stopped-without-cause", "watch-not-reestablished"},
-    "C15": KERNEL | {"read-not-linearizable", "read-error", "returned-slice-not-owned", "list-not-snapshot", "data-race"},
+    "C15": KERNEL | {"read-not-linearizable", "operation-not-atomic", "read-error", "returned-slice-not-owned", "list-not-snapshot", "data-race"},
     "C13": {"lists-overlap", "list-too-early", "list-before-consumed-plus-period", "relisting-stopped", "close-hangs", "shutdown-timeout", "goroutine-leak"},
     "C14": {"list-failure-not-fatal", "stopped-without-cause", "failure-not-reported", "ready-after-failed-first-list",
             "deliberate-close-reports-failure", "shutdown-timeout", "close-hangs"},
-    "C05": ORDER | {"cache-older-than-event", "ctl-events-differ"},
+    "C05": ORDER | {"cache-older-than-event", "ctl-events-differ", "drop-not-full", "drop-unknown"},
     "C06": KERNEL | {"refilter-lost", "filter-not-quiescent", "filter-not-set", "fsub-events-differ", "fsub-emits-other", "events-not-emitted",
                      "sync-list-not-parent-listing", "list-not-snapshot", "lost-at-quiescence", "stuck-at-quiescence", "order", "recv-unexplained"},
     "C07": KERNEL | {"refilter-lost", "equal-filters-differ", "fsub-events-differ", "fsub-emits-other", "events-not-emitted", "filter-not-quiescent", "filter-not-set",
                      "sync-list-not-parent-listing", "recv-unexplained", "stuck-at-quiescence"},
     "C08": {"ready-before-sync", "publish-before-ready", "parent-not-ready", "ready-before-parent", "deferred-ready-without-filter",
-            "ready-unsynced", "ready-twice", "event-before-ready", "emit-before-ready", "ready-observed-not-declared", "list-not-snapshot",
+            "ready-unsynced", "ready-with-wrong-filter", "ready-twice", "event-before-ready", "emit-before-ready", "ready-observed-not-declared", "list-not-snapshot",
             "callback-before-ready", "flag-mismatch"},
-    "C10": ORDER | {"drop-not-full", "drop-unknown", "cache-not-current", "filter-not-quiescent", "list-not-snapshot", "close-hangs", "shutdown-timeout", "api-call-blocks"},
+    "C10": ORDER | {"drop-not-full", "drop-unknown", "cache-not-current", "filter-not-quiescent", "list-not-snapshot", "fsub-emits-other", "events-not-emitted", "close-hangs", "shutdown-timeout", "api-call-blocks"},
     "C11": {"stopped-outside-closed-subtree", "cascade-incomplete", "shutdown-timeout", "closed-before-drained", "close-hangs", "api-call-blocks", "goroutine-leak"} | ORDER,
     "C12": {"goroutine-leak", "shutdown-timeout", "close-hangs", "call-blocks-after-done", "call-fails-after-done", "closed-before-drained", "api-call-blocks",
             "racing-call-zombie"},
@@ -220,6 +220,11 @@ def check_tree(prop, tier, replay):
         nscen += modes["orders"]
         mdist += modes["states"]
         mgen += modes["generated"]
+    if prop == "C12":
+        # joins: closing a join result, and asking for a join on bases that have shut down, leaves nothing behind
+        import fam_filters
+        js = fam_filters.run_joins(res, tier, {"join-leak", "join-on-stopped-base", "join-close-hangs", "join-close-stops-base", "crash"})
+        nscen += js["scenarios"]
     if prop == "C10":
         # the typed layer's subscriptions: a never-reading typed subscriber keeps the first buffer, siblings see everything
         import fam_filters
